@@ -3,10 +3,13 @@ import PraatModel.Query
 
 /-!
 # C15 — queries and derived views agree with their definitions
+
+Exact arithmetic (`Int` timestamps of any size, lists of any length).  Every theorem is about the model
+functions of `Ops.lean` (section "queries"), `Tier.lean`/`Textgrid.lean` (`validate`) and `Query.lean`.
 -/
 namespace C15
 
-/-! ## 7. intervalOverlapCheck -/
+/-! ## 7. `intervalOverlapCheck` -/
 
 theorem overlap_iff_excl (a b : Iv Int) :
     overlapCheck a b 0 false = true ↔ max a.s b.s < min a.e b.e := by
@@ -14,5 +17,996 @@ theorem overlap_iff_excl (a b : Iv Int) :
   simp only [overlapCheck, pyMax2_int, pyMin2_int, Tm.zero]
   simp
   omega
+theorem overlap_iff_incl (a b : Iv Int) :
+    overlapCheck a b 0 true = true ↔ (max a.s b.s < min a.e b.e ∨ a.s = b.e ∨ a.e = b.s) := by
+  obtain ⟨as, ae, al⟩ := a; obtain ⟨bs, be, bl⟩ := b
+  simp only [overlapCheck, pyMax2_int, pyMin2_int, Tm.zero]
+  simp
+  omega
+
+theorem overlap_iff_thr (a b : Iv Int) (thr : Int) (h : 0 < thr) :
+    overlapCheck a b thr false = true ↔ thr ≤ min a.e b.e - max a.s b.s := by
+  obtain ⟨as, ae, al⟩ := a; obtain ⟨bs, be, bl⟩ := b
+  simp only [overlapCheck, pyMax2_int, pyMin2_int, Tm.zero]
+  simp
+  split <;> omega
+
+/-- **overlap_iff** (all three clauses) -/
+theorem overlap_iff (a b : Iv Int) :
+    (overlapCheck a b 0 false = true ↔ max a.s b.s < min a.e b.e) ∧
+    (overlapCheck a b 0 true = true ↔ (max a.s b.s < min a.e b.e ∨ a.s = b.e ∨ a.e = b.s)) ∧
+    (∀ thr, 0 < thr → (overlapCheck a b thr false = true ↔ thr ≤ min a.e b.e - max a.s b.s)) :=
+  ⟨overlap_iff_excl a b, overlap_iff_incl a b, overlap_iff_thr a b⟩
+
+/-! ## 9. `__eq__` is reflexive and symmetric -/
+
+theorem close9_symm (a b : Int) : Tm.close9 a b = Tm.close9 b a := by
+  simp only [Tm.close9]
+  have : (a - b).natAbs = (b - a).natAbs := by omega
+  rw [this, Nat.max_comm]
+
+theorem close14_symm (a b : Int) : Tm.close14 a b = Tm.close14 b a := by
+  simp only [Tm.close14]
+  have : (a - b).natAbs = (b - a).natAbs := by omega
+  rw [this, Nat.max_comm]
+
+theorem close14_self (a : Int) : Tm.close14 a a = true := by simp [Tm.close14]
+
+theorem zip_self_all {β} (f : β × β → Bool) (l : List β) :
+    (l.zip l).all f = l.all (fun a => f (a, a)) := by
+  induction l with
+  | nil => rfl
+  | cons x xs ih => simp [List.zip_cons_cons, List.all_cons, ih]
+
+theorem zip_all_symm {β γ} (f : β × γ → Bool) (g : γ × β → Bool) (h : ∀ a b, f (a, b) = g (b, a))
+    (l : List β) (m : List γ) : (l.zip m).all f = (m.zip l).all g := by
+  induction l generalizing m with
+  | nil => simp
+  | cons x xs ih =>
+    cases m with
+    | nil => simp
+    | cons y ys => simp [List.zip_cons_cons, List.all_cons, h, ih]
+
+theorem ieq_refl (t : ITier Int) : t.eq t = true := by
+  simp [ITier.eq, zip_self_all, Int.close9_self]
+
+theorem peq_refl (t : PTier Int) : t.eq t = true := by
+  simp [PTier.eq, zip_self_all, Int.close9_self]
+
+theorem ieq_symm (t u : ITier Int) : t.eq u = u.eq t := by
+  unfold ITier.eq
+  rw [zip_all_symm (l := t.es) (m := u.es) _
+    (fun (p : Iv Int × Iv Int) => Tm.close9 p.1.s p.2.s && Tm.close9 p.1.e p.2.e && p.1.l == p.2.l)
+    (by intro a b; simp only [close9_symm a.s, close9_symm a.e, BEq.comm (a := a.l)])]
+  rw [close9_symm t.lo, close9_symm t.hi, BEq.comm (a := t.name), BEq.comm (a := t.es.length)]
+
+theorem peq_symm (t u : PTier Int) : t.eq u = u.eq t := by
+  unfold PTier.eq
+  rw [zip_all_symm (l := t.ps) (m := u.ps) _
+    (fun (p : Pt Int × Pt Int) => Tm.close9 p.1.t p.2.t && p.1.l == p.2.l)
+    (by intro a b; simp only [close9_symm a.t, BEq.comm (a := a.l)])]
+  rw [close9_symm t.lo, close9_symm t.hi, BEq.comm (a := t.name), BEq.comm (a := t.ps.length)]
+
+theorem anyeq_refl (t : AnyTier Int) : t.eq t = true := by
+  cases t <;> simp [AnyTier.eq, ieq_refl, peq_refl]
+
+theorem anyeq_symm (t u : AnyTier Int) : t.eq u = u.eq t := by
+  cases t <;> cases u <;> simp [AnyTier.eq, ieq_symm, peq_symm]
+
+theorem optClose14_symm (a b : Option Int) : optClose14 a b = optClose14 b a := by
+  cases a <;> cases b <;> simp [optClose14, close14_symm]
+
+theorem tgeq_refl (g : Tg Int) (hlo : g.lo.isSome) (hhi : g.hi.isSome) : g.eq g = true := by
+  obtain ⟨ts, lo, hi⟩ := g
+  cases lo <;> cases hi <;> simp at hlo hhi
+  simp [Tg.eq, optClose14, close14_self, zip_self_all, anyeq_refl]
+
+theorem tgeq_symm (g h : Tg Int) : g.eq h = h.eq g := by
+  unfold Tg.eq
+  rw [zip_all_symm (l := g.tiers) (m := h.tiers) _ (fun (p : AnyTier Int × AnyTier Int) => p.1.eq p.2)
+    (by intro a b; exact anyeq_symm a b)]
+  rw [optClose14_symm g.lo, optClose14_symm g.hi, BEq.comm (a := g.names)]
+
+/-! ## 10. what `__eq__` discriminates -/
+
+theorem zip_all_labels {β} (l m : List β) (lab : β → String) (f : β × β → Bool)
+    (hf : ∀ a b, f (a, b) = true → lab a = lab b) (hl : l.length = m.length)
+    (h : (l.zip m).all f = true) : l.map lab = m.map lab := by
+  induction l generalizing m with
+  | nil => cases m with
+    | nil => rfl
+    | cons y ys => simp at hl
+  | cons x xs ih =>
+    cases m with
+    | nil => simp at hl
+    | cons y ys =>
+      simp only [List.zip_cons_cons, List.all_cons, Bool.and_eq_true] at h
+      simp only [List.map_cons, List.cons.injEq]
+      exact ⟨hf _ _ h.1, ih ys (by simpa using hl) h.2⟩
+
+theorem ieq_discriminates (t u : ITier Int) (h : t.eq u = true) :
+    t.name = u.name ∧ Tm.close9 t.lo u.lo = true ∧ Tm.close9 t.hi u.hi = true ∧
+    t.es.length = u.es.length ∧ t.es.map (·.l) = u.es.map (·.l) ∧
+    ∀ p ∈ t.es.zip u.es, Tm.close9 p.1.s p.2.s = true ∧ Tm.close9 p.1.e p.2.e = true := by
+  simp only [ITier.eq, Bool.and_eq_true, beq_iff_eq] at h
+  obtain ⟨⟨⟨⟨h1, h2⟩, h3⟩, h4⟩, h5⟩ := h
+  refine ⟨h1, h2, h3, h4, ?_, ?_⟩
+  · refine zip_all_labels t.es u.es (·.l) _ ?_ h4 h5
+    intro a b hab
+    simp only [Bool.and_eq_true, beq_iff_eq] at hab
+    exact hab.2
+  · intro p hp
+    have := List.all_eq_true.1 h5 p hp
+    simp only [Bool.and_eq_true, beq_iff_eq] at this
+    exact ⟨this.1.1, this.1.2⟩
+
+theorem peq_discriminates (t u : PTier Int) (h : t.eq u = true) :
+    t.name = u.name ∧ Tm.close9 t.lo u.lo = true ∧ Tm.close9 t.hi u.hi = true ∧
+    t.ps.length = u.ps.length ∧ t.ps.map (·.l) = u.ps.map (·.l) ∧
+    ∀ p ∈ t.ps.zip u.ps, Tm.close9 p.1.t p.2.t = true := by
+  simp only [PTier.eq, Bool.and_eq_true, beq_iff_eq] at h
+  obtain ⟨⟨⟨⟨h1, h2⟩, h3⟩, h4⟩, h5⟩ := h
+  refine ⟨h1, h2, h3, h4, ?_, ?_⟩
+  · refine zip_all_labels t.ps u.ps (·.l) _ ?_ h4 h5
+    intro a b hab
+    simp only [Bool.and_eq_true, beq_iff_eq] at hab
+    exact hab.2
+  · intro p hp
+    have := List.all_eq_true.1 h5 p hp
+    simp only [Bool.and_eq_true, beq_iff_eq] at this
+    exact this.1
+
+theorem eq_mixed (t : ITier Int) (u : PTier Int) :
+    AnyTier.eq (.I t) (.P u) = false ∧ AnyTier.eq (.P u) (.I t) = false := ⟨rfl, rfl⟩
+
+/-- the converse: `eq` is exactly these conditions -/
+theorem ieq_iff (t u : ITier Int) :
+    t.eq u = true ↔ t.name = u.name ∧ Tm.close9 t.lo u.lo = true ∧ Tm.close9 t.hi u.hi = true ∧
+      t.es.length = u.es.length ∧
+      ∀ p ∈ t.es.zip u.es, Tm.close9 p.1.s p.2.s = true ∧ Tm.close9 p.1.e p.2.e = true ∧ p.1.l = p.2.l := by
+  simp only [ITier.eq, Bool.and_eq_true, beq_iff_eq, List.all_eq_true]
+  grind
+
+/-! ## 11. `validate` -/
+
+/-- consecutive entries do not overlap (`x.e ≤ y.s` for neighbours `x`, `y`) -/
+def AdjLe : List (Iv Int) → Prop
+  | x :: y :: rest => x.e ≤ y.s ∧ AdjLe (y :: rest)
+  | _ => True
+
+def PAdjLe : List (Pt Int) → Prop
+  | x :: y :: rest => x.t ≤ y.t ∧ PAdjLe (y :: rest)
+  | _ => True
+
+theorem adjLe_iff_disj (es : List (Iv Int)) (hp : Pos es) : AdjLe es ↔ Disj es := by
+  induction es with
+  | nil => simp [AdjLe, Disj]
+  | cons x xs ih =>
+    cases xs with
+    | nil => simp [AdjLe, Disj]
+    | cons y ys =>
+      have ih' := ih (pos_tail hp)
+      simp only [AdjLe, Disj, List.pairwise_cons] at ih' ⊢
+      rw [ih']
+      constructor
+      · rintro ⟨h1, h2, h3⟩
+        refine ⟨?_, h2, h3⟩
+        intro z hz
+        rcases List.mem_cons.1 hz with rfl | hz
+        · exact h1
+        · have := h2 z hz
+          have := hp y (by simp)
+          omega
+      · rintro ⟨h1, h2, h3⟩
+        exact ⟨h1 y (by simp), h2, h3⟩
+
+theorem padjLe_iff_pairwise (ps : List (Pt Int)) : PAdjLe ps ↔ ps.Pairwise (fun a b => a.t ≤ b.t) := by
+  induction ps with
+  | nil => simp [PAdjLe]
+  | cons x xs ih =>
+    cases xs with
+    | nil => simp [PAdjLe]
+    | cons y ys =>
+      simp only [PAdjLe, List.pairwise_cons] at ih ⊢
+      rw [ih]
+      constructor
+      · rintro ⟨h1, h2, h3⟩
+        refine ⟨?_, h2, h3⟩
+        intro z hz
+        rcases List.mem_cons.1 hz with rfl | hz
+        · exact h1
+        · have := h2 z hz
+          omega
+      · rintro ⟨h1, h2, h3⟩
+        exact ⟨h1 y (by simp), h2, h3⟩
+
+theorem ivalidate_go_iff (t : ITier Int) (prev : Option (Iv Int)) (es : List (Iv Int)) :
+    ITier.validate.go t prev es = true ↔
+      (∀ iv ∈ es, iv.s < iv.e ∧ t.lo ≤ iv.s ∧ iv.e ≤ t.hi) ∧
+      AdjLe (prev.toList ++ es) := by
+  induction es generalizing prev with
+  | nil => cases prev <;> simp [ITier.validate.go, AdjLe]
+  | cons x xs ih =>
+    simp only [ITier.validate.go, Bool.and_eq_true, ih (some x), List.mem_cons, forall_eq_or_imp,
+      Option.toList_some, List.singleton_append, decide_eq_true_eq, Bool.not_eq_true',
+      decide_eq_false_iff_not, Int.not_lt]
+    cases prev with
+    | none => simp only [Option.toList_none, List.nil_append]; grind
+    | some p => simp only [Option.toList_some, List.singleton_append, AdjLe, decide_eq_false_iff_not,
+        Bool.not_eq_true', Int.not_lt]; grind
+
+theorem ivalidate_iff (t : ITier Int) :
+    t.validate = true ↔ (∀ iv ∈ t.es, iv.s < iv.e ∧ t.lo ≤ iv.s ∧ iv.e ≤ t.hi) ∧ AdjLe t.es := by
+  unfold ITier.validate
+  rw [ivalidate_go_iff]
+  simp
+
+theorem ivalidate_iff_disj (t : ITier Int) :
+    t.validate = true ↔ (∀ iv ∈ t.es, iv.s < iv.e ∧ t.lo ≤ iv.s ∧ iv.e ≤ t.hi) ∧ Disj t.es := by
+  rw [ivalidate_iff]
+  constructor
+  · rintro ⟨h1, h2⟩; exact ⟨h1, (adjLe_iff_disj _ (fun iv h => (h1 iv h).1)).1 h2⟩
+  · rintro ⟨h1, h2⟩; exact ⟨h1, (adjLe_iff_disj _ (fun iv h => (h1 iv h).1)).2 h2⟩
+
+theorem wf_validate (t : ITier Int) (h : t.WF) : t.validate = true :=
+  (ivalidate_iff_disj t).2 ⟨fun iv hiv => ⟨h.pos iv hiv, h.inLo iv hiv, h.inHi iv hiv⟩, h.disj⟩
+
+theorem pvalidate_go_iff (t : PTier Int) (prev : Option (Pt Int)) (ps : List (Pt Int)) :
+    PTier.validate.go t prev ps = true ↔
+      (∀ p ∈ ps, t.lo ≤ p.t ∧ p.t ≤ t.hi) ∧ PAdjLe (prev.toList ++ ps) := by
+  induction ps generalizing prev with
+  | nil => cases prev <;> simp [PTier.validate.go, PAdjLe]
+  | cons x xs ih =>
+    simp only [PTier.validate.go, Bool.and_eq_true, ih (some x), List.mem_cons, forall_eq_or_imp,
+      Option.toList_some, List.singleton_append, Bool.not_eq_true',
+      decide_eq_false_iff_not, Int.not_lt]
+    cases prev with
+    | none => simp only [Option.toList_none, List.nil_append]; grind
+    | some p => simp only [Option.toList_some, List.singleton_append, PAdjLe, decide_eq_false_iff_not,
+        Bool.not_eq_true', Int.not_lt]; grind
+
+theorem pvalidate_iff (t : PTier Int) :
+    t.validate = true ↔ (∀ p ∈ t.ps, t.lo ≤ p.t ∧ p.t ≤ t.hi) ∧ PAdjLe t.ps := by
+  unfold PTier.validate
+  rw [pvalidate_go_iff]
+  simp
+
+theorem pvalidate_iff_sorted (t : PTier Int) :
+    t.validate = true ↔ (∀ p ∈ t.ps, t.lo ≤ p.t ∧ p.t ≤ t.hi) ∧ t.ps.Pairwise (fun a b => a.t ≤ b.t) := by
+  rw [pvalidate_iff, padjLe_iff_pairwise]
+
+theorem pwf_validate (t : PTier Int) (h : t.WF) : t.validate = true :=
+  (pvalidate_iff_sorted t).2 ⟨fun p hp => ⟨h.inLo p hp, h.inHi p hp⟩, h.sorted.imp Pt.le_time⟩
+
+theorem eraseDups_length_le (l : List String) : l.eraseDups.length ≤ l.length := by
+  induction h : l.length using Nat.strongRecOn generalizing l with
+  | _ n ih =>
+    cases l with
+    | nil => simp
+    | cons a as =>
+      rw [List.eraseDups_cons]
+      have h1 := List.length_filter_le (fun b => !b == a) as
+      have := ih _ (by simp at h; omega) (as.filter (fun b => !b == a)) rfl
+      simp at h ⊢; omega
+
+theorem eraseDups_length_iff (l : List String) : l.eraseDups.length = l.length ↔ l.Nodup := by
+  induction h : l.length using Nat.strongRecOn generalizing l with
+  | _ n ih =>
+    subst h
+    cases l with
+    | nil => simp
+    | cons a as =>
+      rw [List.eraseDups_cons, List.nodup_cons]
+      have h1 := List.length_filter_le (fun b => !b == a) as
+      have h2 := eraseDups_length_le (as.filter (fun b => !b == a))
+      simp only [List.length_cons] at ih ⊢
+      constructor
+      · intro he
+        have hf : (as.filter (fun b => !b == a)).length = as.length := by omega
+        have hall := List.length_filter_eq_length_iff.1 hf
+        have hfe : as.filter (fun b => !b == a) = as := List.filter_eq_self.2 hall
+        rw [hfe] at he
+        refine ⟨?_, (ih as.length (by omega) as rfl).1 (by omega)⟩
+        intro hm
+        have := hall a hm
+        simp at this
+      · rintro ⟨hn, hd⟩
+        have hfe : as.filter (fun b => !b == a) = as := by
+          apply List.filter_eq_self.2
+          intro b hb
+          simp only [Bool.not_eq_true', beq_eq_false_iff_ne, ne_eq]
+          rintro rfl; exact hn hb
+        rw [hfe, (ih as.length (by omega) as rfl).2 hd]
+
+theorem foldl_and_all {β} (c : β → Bool) (f : Bool → β → Bool) (hf : ∀ ok t, f ok t = (ok && c t))
+    (b : Bool) (l : List β) : l.foldl f b = (b && l.all c) := by
+  induction l generalizing b with
+  | nil => simp
+  | cons x xs ih => simp [List.foldl_cons, ih, hf, Bool.and_assoc]
+
+theorem tgvalidate_iff (g : Tg Int) :
+    g.validate = true ↔
+      g.names.Nodup ∧ ∀ t ∈ g.tiers, g.lo = some t.lo ∧ g.hi = some t.hi ∧ t.validate = true := by
+  unfold Tg.validate
+  simp only []
+  rw [foldl_and_all (fun t => decide (g.lo = some t.lo) && decide (g.hi = some t.hi) && t.validate) _
+      (by intro ok t; cases g.lo <;> cases g.hi <;> simp [Bool.and_assoc] <;> rfl)]
+  simp only [Bool.and_eq_true, decide_eq_true_eq, eraseDups_length_iff, List.all_eq_true, and_assoc]
+/-! ## 1. `find` -/
+
+theorem findLabels_mem_exact (ls : List String) (q : String) (i : Nat) :
+    i ∈ findLabels ls q false ↔ ls[i]? = some q := by
+  simp only [findLabels, List.mem_filterMap, Prod.exists, List.mem_zipIdx_iff_getElem?]
+  constructor
+  · rintro ⟨l, j, h1, h2⟩
+    simp only [Bool.false_eq_true, if_false] at h2
+    split at h2
+    · rename_i h; simp at h2 h; subst h2; subst h; exact h1
+    · cases h2
+  · intro h; exact ⟨q, i, h, by simp⟩
+
+theorem findLabels_mem_substr (ls : List String) (q : String) (i : Nat) :
+    i ∈ findLabels ls q true ↔ ∃ l, ls[i]? = some l ∧ ((l.splitOn q).length > 1 ∨ q.isEmpty) := by
+  simp only [findLabels, List.mem_filterMap, Prod.exists, List.mem_zipIdx_iff_getElem?]
+  constructor
+  · rintro ⟨l, j, h1, h2⟩
+    simp only [if_true] at h2
+    split at h2
+    · rename_i h; simp at h2; subst h2; exact ⟨l, h1, by simpa using h⟩
+    · cases h2
+  · rintro ⟨l, h1, h2⟩
+    refine ⟨l, i, h1, ?_⟩
+    simp only [if_true]
+    rw [if_pos (by simpa using h2)]
+
+theorem filterMap_zipIdx_sorted {β} (f : β × Nat → Option Nat) (hf : ∀ p i, f p = some i → i = p.2)
+    (ls : List β) (k : Nat) :
+    ((ls.zipIdx k).filterMap f).Pairwise (· < ·) ∧ ∀ i ∈ (ls.zipIdx k).filterMap f, k ≤ i := by
+  induction ls generalizing k with
+  | nil => simp
+  | cons x xs ih =>
+    obtain ⟨h1, h2⟩ := ih (k + 1)
+    rw [List.zipIdx_cons, List.filterMap_cons]
+    split
+    · exact ⟨h1, fun i hi => by have := h2 i hi; omega⟩
+    · rename_i j hj
+      have := hf _ _ hj
+      simp only at this; subst this
+      refine ⟨List.pairwise_cons.2 ⟨fun i hi => by have := h2 i hi; omega, h1⟩, ?_⟩
+      intro i hi
+      rcases List.mem_cons.1 hi with rfl | hi
+      · omega
+      · have := h2 i hi; omega
+
+theorem findLabels_sorted (ls : List String) (q : String) (b : Bool) :
+    (findLabels ls q b).Pairwise (· < ·) := by
+  unfold findLabels
+  refine (filterMap_zipIdx_sorted _ ?_ ls 0).1
+  rintro ⟨l, j⟩ i h
+  simp only at h
+  split at h <;> split at h <;> simp_all
+
+/-! ## 3. `timestamps`, 4. `getValuesInIntervals` -/
+
+theorem sortTimes_pairwise (ts : List Int) : (sortTimes ts).Pairwise (· ≤ ·) := by
+  have := List.pairwise_mergeSort (le := fun (a b : Int) => !decide (b < a))
+    (by intro a b c; simp; omega) (by intro a b; simp; omega) ts
+  exact this.imp (by intro a b h; simpa using h)
+
+theorem mem_sortTimes (ts : List Int) (x : Int) : x ∈ sortTimes ts ↔ x ∈ ts := List.mem_mergeSort
+
+theorem dedupSorted_spec (l : List Int) (h : l.Pairwise (· ≤ ·)) :
+    (dedupSorted l).Pairwise (· < ·) ∧ ∀ x, x ∈ dedupSorted l ↔ x ∈ l := by
+  induction l using dedupSorted.induct with
+  | case1 x y rest hxy ih =>
+    have hxy' : x = y := by simpa using hxy
+    rw [dedupSorted, if_pos hxy]
+    obtain ⟨h1, h2⟩ := ih (List.pairwise_cons.1 h).2
+    refine ⟨h1, fun z => ?_⟩
+    rw [h2 z]; subst hxy'; simp
+  | case2 x y rest hxy ih =>
+    have hxy' : x ≠ y := by simpa using hxy
+    rw [dedupSorted, if_neg hxy]
+    obtain ⟨hx, hrest⟩ := List.pairwise_cons.1 h
+    obtain ⟨h1, h2⟩ := ih hrest
+    refine ⟨List.pairwise_cons.2 ⟨?_, h1⟩, fun z => ?_⟩
+    · intro z hz
+      have hz' := (h2 z).1 hz
+      have h3 := hx y (by simp)
+      have h4 : y ≤ z := by
+        rcases List.mem_cons.1 hz' with rfl | hz''
+        · omega
+        · exact (List.pairwise_cons.1 hrest).1 z hz''
+      omega
+    · simp only [List.mem_cons, h2 z]
+  | case3 l hl =>
+    have : dedupSorted l = l := by
+      unfold dedupSorted
+      split
+      · rename_i x y rest; exact absurd rfl (hl x y rest)
+      · rfl
+    rw [this]
+    refine ⟨?_, fun _ => Iff.rfl⟩
+    match l, hl with
+    | [], _ => simp
+    | [x], _ => simp
+    | x :: y :: rest, hl => exact absurd rfl (hl x y rest)
+
+theorem itimestamps_spec (t : ITier Int) :
+    t.timestamps.Pairwise (· < ·) ∧ ∀ x, x ∈ t.timestamps ↔ ∃ iv ∈ t.es, x = iv.s ∨ x = iv.e := by
+  obtain ⟨h1, h2⟩ := dedupSorted_spec _ (sortTimes_pairwise (t.es.flatMap fun iv => [iv.s, iv.e]))
+  refine ⟨h1, fun x => ?_⟩
+  unfold ITier.timestamps
+  rw [h2 x, mem_sortTimes]
+  simp [List.mem_flatMap]
+
+theorem ptimestamps_spec (t : PTier Int) :
+    t.timestamps.Pairwise (· < ·) ∧ ∀ x, x ∈ t.timestamps ↔ ∃ p ∈ t.ps, x = p.t := by
+  obtain ⟨h1, h2⟩ := dedupSorted_spec _ (sortTimes_pairwise (t.ps.map (·.t)))
+  refine ⟨h1, fun x => ?_⟩
+  unfold PTier.timestamps
+  rw [h2 x, mem_sortTimes]
+  simp [List.mem_map, eq_comm]
+
+theorem valuesInInterval_eq (data : List (Int × Nat)) (s e : Int) :
+    valuesInInterval data s e = data.filter (fun d => decide (s ≤ d.1 ∧ d.1 ≤ e)) := by
+  unfold valuesInInterval
+  congr 1; funext d; simp
+
+theorem valuesInIntervals_spec (t : ITier Int) (data : List (Int × Nat)) :
+    t.valuesInIntervals data =
+      t.es.map (fun iv => (iv, data.filter (fun d => decide (iv.s ≤ d.1 ∧ d.1 ≤ iv.e)))) := by
+  unfold ITier.valuesInIntervals
+  simp only [valuesInInterval_eq]
+
+theorem valuesInInterval_sublist (data : List (Int × Nat)) (s e : Int) :
+    (valuesInInterval data s e).Sublist data := List.filter_sublist
+
+theorem valuesInInterval_mem (data : List (Int × Nat)) (s e : Int) (d : Int × Nat) :
+    d ∈ valuesInInterval data s e ↔ d ∈ data ∧ s ≤ d.1 ∧ d.1 ≤ e := by
+  simp [valuesInInterval]
+
+/-! ## 2. `getNonEntries` -/
+
+/-- the blank intervals between consecutive entries (the middle part of `getNonEntries`) -/
+def gapsOf (es : List (Iv Int)) : List (Iv Int) :=
+  (es.zip es.tail).filterMap fun (x, y) => if x.e < y.s then some (⟨x.e, y.s, ""⟩ : Iv Int) else none
+
+theorem gapsOf_cons2 (x y : Iv Int) (rest : List (Iv Int)) :
+    gapsOf (x :: y :: rest) = (if x.e < y.s then [(⟨x.e, y.s, ""⟩ : Iv Int)] else []) ++ gapsOf (y :: rest) := by
+  simp only [gapsOf, List.tail_cons, List.zip_cons_cons, List.filterMap_cons]
+  split <;> simp_all
+
+theorem first_le_of_disj {x : Iv Int} {xs : List (Iv Int)} (hp : Pos (x :: xs)) (hd : Disj (x :: xs)) :
+    ∀ a ∈ x :: xs, x.s ≤ a.s ∧ x.e ≤ a.e := by
+  intro a ha
+  rcases List.mem_cons.1 ha with rfl | ha
+  · omega
+  · have := hd.cons.1 a ha
+    have := hp a (by simp [ha])
+    have := hp x (by simp)
+    omega
+
+theorem gaps_spec (es : List (Iv Int)) (hp : Pos es) (hd : Disj es) :
+    (∀ n ∈ gapsOf es, n.l = "" ∧ n.s < n.e ∧ (∃ a ∈ es, a.e = n.s) ∧ (∃ b ∈ es, b.s = n.e) ∧
+        ∀ iv ∈ es, iv.e ≤ n.s ∨ n.e ≤ iv.s) ∧
+    Disj (gapsOf es) ∧
+    (∀ x0, (∃ a ∈ es, a.s ≤ x0) → (∃ b ∈ es, x0 < b.e) → covers es x0 ∨ covers (gapsOf es) x0) := by
+  induction es with
+  | nil => simp [gapsOf, Disj]
+  | cons x xs ih =>
+    cases xs with
+    | nil =>
+      refine ⟨by simp [gapsOf], by simp [gapsOf, Disj], ?_⟩
+      rintro x0 ⟨a, ha, h1⟩ ⟨b, hb, h2⟩
+      simp only [List.mem_singleton] at ha hb
+      rw [ha] at h1; rw [hb] at h2
+      exact Or.inl ⟨x, by simp, h1, h2⟩
+    | cons y rest =>
+      obtain ⟨hdx, hdr⟩ := hd.cons
+      obtain ⟨ih1, ih2, ih3⟩ := ih (pos_tail hp) hdr
+      have hfy := first_le_of_disj (pos_tail hp) hdr
+      have hxy := hdx y (by simp)
+      have hpx := hp x (by simp)
+      have hpy := hp y (by simp)
+      rw [gapsOf_cons2]
+      refine ⟨?_, ?_, ?_⟩
+      · intro n hn
+        rcases List.mem_append.1 hn with hn | hn
+        · split at hn
+          · rename_i hlt
+            simp only [List.mem_singleton] at hn; subst hn
+            refine ⟨rfl, hlt, ⟨x, by simp, rfl⟩, ⟨y, by simp, rfl⟩, ?_⟩
+            intro iv hiv
+            rcases List.mem_cons.1 hiv with rfl | hiv
+            · left; exact Int.le_refl _
+            · right; exact (hfy iv hiv).1
+          · cases hn
+        · obtain ⟨h1, h2, ⟨a, ha, hae⟩, ⟨b, hb, hbe⟩, h5⟩ := ih1 n hn
+          refine ⟨h1, h2, ⟨a, by simp [ha], hae⟩, ⟨b, by simp [hb], hbe⟩, ?_⟩
+          intro iv hiv
+          rcases List.mem_cons.1 hiv with rfl | hiv
+          · left
+            have := hdx a ha
+            have := hp a (by simp [ha])
+            omega
+          · exact h5 iv hiv
+      · unfold Disj
+        rw [List.pairwise_append]
+        refine ⟨by split <;> simp, ih2, ?_⟩
+        intro a ha b hb
+        split at ha
+        · simp only [List.mem_singleton] at ha; subst ha
+          obtain ⟨_, _, ⟨c, hc, hce⟩, _, _⟩ := ih1 b hb
+          have := (hfy c hc).1
+          have := hp c (by simp [hc])
+          show y.s ≤ b.s
+          omega
+        · cases ha
+      · rintro x0 ⟨a, ha, h1⟩ ⟨b, hb, h2⟩
+        have hfa := (first_le_of_disj hp hd a ha).1
+        by_cases hx : x0 < x.e
+        · exact Or.inl ⟨x, by simp, by omega, hx⟩
+        · by_cases hy : x0 < y.s
+          · right
+            refine ⟨⟨x.e, y.s, ""⟩, ?_, by simp only; omega, hy⟩
+            rw [if_pos (by omega)]; simp
+          · have hb' : b ∈ y :: rest := by
+              rcases List.mem_cons.1 hb with rfl | hb
+              · omega
+              · exact hb
+            rcases ih3 x0 ⟨y, by simp, by omega⟩ ⟨b, hb', h2⟩ with ⟨c, hc, h⟩ | ⟨c, hc, h⟩
+            · exact Or.inl ⟨c, List.mem_cons_of_mem _ hc, h⟩
+            · exact Or.inr ⟨c, List.mem_append.2 (Or.inr hc), h⟩
+
+
+theorem last_ge_of_disj (es : List (Iv Int)) (g : Iv Int) (hp : Pos es) (hd : Disj es)
+    (hg : es.getLast? = some g) : g ∈ es ∧ ∀ a ∈ es, a.s ≤ g.s ∧ a.e ≤ g.e := by
+  induction es with
+  | nil => simp at hg
+  | cons x xs ih =>
+    cases xs with
+    | nil => simp at hg; subst hg; simp
+    | cons y rest =>
+      rw [List.getLast?_cons_cons] at hg
+      obtain ⟨h1, h2⟩ := ih (pos_tail hp) hd.cons.2 hg
+      refine ⟨List.mem_cons_of_mem _ h1, ?_⟩
+      intro a ha
+      rcases List.mem_cons.1 ha with rfl | ha
+      · have := hd.cons.1 g h1
+        have := hp g (by simp [h1])
+        have := hp a (by simp)
+        omega
+      · exact h2 a ha
+
+theorem pairwise_total {β} {R : β → β → Prop} {l : List β} (h : l.Pairwise R) :
+    ∀ a ∈ l, ∀ b ∈ l, a = b ∨ R a b ∨ R b a := by
+  induction l with
+  | nil => simp
+  | cons x xs ih =>
+    obtain ⟨h1, h2⟩ := List.pairwise_cons.1 h
+    intro a ha b hb
+    rcases List.mem_cons.1 ha with ha | ha <;> rcases List.mem_cons.1 hb with hb | hb
+    · exact Or.inl (ha.trans hb.symm)
+    · exact Or.inr (Or.inl (ha ▸ h1 b hb))
+    · exact Or.inr (Or.inr (hb ▸ h1 a ha))
+    · exact ih h2 a ha b hb
+
+/-- consecutive entries touch -/
+def Touch : List (Iv Int) → Prop
+  | x :: y :: rest => x.e = y.s ∧ Touch (y :: rest)
+  | _ => True
+
+/-- a time-ordered list of positive, pairwise disjoint intervals inside `[lo, hi]` that covers every time of
+`[lo, hi)` is a tiling: it starts at `lo`, ends at `hi`, and consecutive entries touch -/
+theorem tiling_of_cover (L : List (Iv Int)) (lo hi : Int) (hlt : lo < hi) (hp : Pos L) (hd : Disj L)
+    (hin : ∀ iv ∈ L, lo ≤ iv.s ∧ iv.e ≤ hi) (hcov : ∀ x, lo ≤ x → x < hi → covers L x) :
+    L.head?.map (·.s) = some lo ∧ L.getLast?.map (·.e) = some hi ∧ Touch L := by
+  induction L generalizing lo with
+  | nil =>
+    obtain ⟨iv, hiv, _⟩ := hcov lo (Int.le_refl _) hlt
+    simp at hiv
+  | cons x xs ih =>
+    have hfirst := first_le_of_disj hp hd
+    have hxs : x.s = lo := by
+      obtain ⟨iv, hiv, h1, h2⟩ := hcov lo (Int.le_refl _) hlt
+      have := (hfirst iv hiv).1
+      have := (hin x (by simp)).1
+      omega
+    have hpx := hp x (by simp)
+    cases xs with
+    | nil =>
+      refine ⟨by simp [hxs], ?_, trivial⟩
+      simp only [List.getLast?_singleton, Option.map_some, Option.some.injEq]
+      have := (hin x (by simp)).2
+      by_cases h : x.e < hi
+      · obtain ⟨iv, hiv, h1, h2⟩ := hcov x.e (by omega) h
+        simp only [List.mem_singleton] at hiv; subst hiv; omega
+      · omega
+    | cons y rest =>
+      have hxy := hd.cons.1 y (by simp)
+      have hpy := hp y (by simp)
+      have hyhi := (hin y (by simp)).2
+      obtain ⟨i1, i2, i3⟩ := ih x.e (by omega) (pos_tail hp) hd.cons.2
+        (fun iv hiv => ⟨hd.cons.1 iv hiv, (hin iv (by simp [hiv])).2⟩)
+        (by
+          intro z hz1 hz2
+          obtain ⟨iv, hiv, h1, h2⟩ := hcov z (by omega) hz2
+          rcases List.mem_cons.1 hiv with rfl | hiv
+          · omega
+          · exact ⟨iv, hiv, h1, h2⟩)
+      refine ⟨by simp [hxs], ?_, ?_, i3⟩
+      · rw [List.getLast?_cons_cons]; exact i2
+      · simpa using i1.symm
+
+/-- **nonEntries_tiling** (both formulations) -/
+theorem nonEntries_tiling (t : ITier Int) (hwf : t.WF) (hne : t.es ≠ []) (h0 : 0 ≤ t.lo) :
+    ∃ ns, t.getNonEntries = .ok ns ∧
+      (∀ n ∈ ns, n.l = "" ∧ n.s < n.e ∧ 0 ≤ n.s ∧ n.e ≤ t.hi) ∧
+      (∀ n ∈ ns, ∀ iv ∈ t.es, n.e ≤ iv.s ∨ iv.e ≤ n.s) ∧
+      Disj ns ∧
+      (∀ x, 0 ≤ x → x < t.hi → covers (t.es ++ ns) x) ∧
+      (∀ x, ∀ a ∈ t.es ++ ns, ∀ b ∈ t.es ++ ns, (a.s ≤ x ∧ x < a.e) → (b.s ≤ x ∧ x < b.e) → a = b) ∧
+      Disj (sortIvs (t.es ++ ns)) ∧
+      (sortIvs (t.es ++ ns)).head?.map (·.s) = some 0 ∧
+      (sortIvs (t.es ++ ns)).getLast?.map (·.e) = some t.hi ∧
+      Touch (sortIvs (t.es ++ ns)) := by
+  obtain ⟨name, es, lo, hi⟩ := t
+  simp only at hne h0 ⊢
+  have hp : Pos es := hwf.pos
+  have hd : Disj es := hwf.disj
+  have hlo : ∀ iv ∈ es, lo ≤ iv.s := hwf.inLo
+  have hhi : ∀ iv ∈ es, iv.e ≤ hi := hwf.inHi
+  obtain ⟨f, rest, rfl⟩ : ∃ f rest, es = f :: rest := by
+    cases es with
+    | nil => exact absurd rfl hne
+    | cons f rest => exact ⟨f, rest, rfl⟩
+  obtain ⟨g, hg⟩ : ∃ g, (f :: rest).getLast? = some g := ⟨_, List.getLast?_eq_some_getLast (by simp)⟩
+  obtain ⟨hgm, hglast⟩ := last_ge_of_disj _ g hp hd hg
+  have hfirst := first_le_of_disj hp hd
+  obtain ⟨g1, g2, g3⟩ := gaps_spec (f :: rest) hp hd
+  have hfm : f ∈ f :: rest := by simp
+  have hpf := hp f hfm
+  have hpg := hp g hgm
+  -- the result of the call
+  let pre : List (Iv Int) := if 0 < f.s then [⟨0, f.s, ""⟩] else []
+  let post : List (Iv Int) := if g.e < hi then [⟨g.e, hi, ""⟩] else []
+  have hcall : ITier.getNonEntries ⟨name, f :: rest, lo, hi⟩ = .ok (pre ++ gapsOf (f :: rest) ++ post) := by
+    simp only [ITier.getNonEntries, hg, List.head?_cons]
+    rfl
+  have hpre : ∀ n ∈ pre, n = ⟨0, f.s, ""⟩ ∧ 0 < f.s := by
+    intro n hn
+    simp only [pre] at hn
+    split at hn
+    · simp at hn; exact ⟨hn, by assumption⟩
+    · cases hn
+  have hpost : ∀ n ∈ post, n = ⟨g.e, hi, ""⟩ ∧ g.e < hi := by
+    intro n hn
+    simp only [post] at hn
+    split at hn
+    · simp at hn; exact ⟨hn, by assumption⟩
+    · cases hn
+  -- every non-entry: blank, positive, inside [0, hi], clear of the entries
+  have hns : ∀ n ∈ pre ++ gapsOf (f :: rest) ++ post,
+      n.l = "" ∧ n.s < n.e ∧ 0 ≤ n.s ∧ n.e ≤ hi ∧ (n.e ≤ f.s ∨ g.e ≤ n.s ∨ n ∈ gapsOf (f :: rest)) := by
+    intro n hn
+    simp only [List.mem_append] at hn
+    rcases hn with (hn | hn) | hn
+    · obtain ⟨rfl, h⟩ := hpre n hn
+      have := hhi f hfm
+      exact ⟨rfl, h, Int.le_refl _, by simp only; omega, Or.inl (Int.le_refl _)⟩
+    · obtain ⟨h1, h2, ⟨a, ha, hae⟩, ⟨b, hb, hbe⟩, _⟩ := g1 n hn
+      have := hlo a ha; have := hp a ha; have := hhi b hb; have := hp b hb
+      exact ⟨h1, h2, by omega, by omega, Or.inr (Or.inr hn)⟩
+    · obtain ⟨rfl, h⟩ := hpost n hn
+      have := hlo g hgm
+      exact ⟨rfl, h, by simp only; omega, Int.le_refl _, Or.inr (Or.inl (Int.le_refl _))⟩
+  have hclear : ∀ n ∈ pre ++ gapsOf (f :: rest) ++ post, ∀ iv ∈ f :: rest, n.e ≤ iv.s ∨ iv.e ≤ n.s := by
+    intro n hn iv hiv
+    obtain ⟨_, _, _, _, h | h | h⟩ := hns n hn
+    · left; have := (hfirst iv hiv).1; omega
+    · right; have := (hglast iv hiv).2; omega
+    · have := (g1 n h).2.2.2.2 iv hiv; omega
+  have hdns : Disj (pre ++ gapsOf (f :: rest) ++ post) := by
+    unfold Disj
+    rw [List.pairwise_append, List.pairwise_append]
+    refine ⟨⟨?_, g2, ?_⟩, ?_, ?_⟩
+    · simp only [pre]; split <;> simp
+    · intro a ha b hb
+      obtain ⟨rfl, _⟩ := hpre a ha
+      obtain ⟨_, _, ⟨c, hc, hce⟩, _, _⟩ := g1 b hb
+      have := (hfirst c hc).1; have := hp c hc
+      show f.s ≤ b.s
+      omega
+    · simp only [post]; split <;> simp
+    · intro a ha b hb
+      obtain ⟨rfl, _⟩ := hpost b hb
+      show a.e ≤ g.e
+      rcases List.mem_append.1 ha with ha | ha
+      · obtain ⟨rfl, _⟩ := hpre a ha
+        show f.s ≤ g.e
+        have := (hglast f hfm).2
+        omega
+      · obtain ⟨_, _, _, ⟨c, hc, hce⟩, _⟩ := g1 a ha
+        have := (hglast c hc).2; have := hp c hc
+        omega
+  have hcov : ∀ x, 0 ≤ x → x < hi → covers ((f :: rest) ++ (pre ++ gapsOf (f :: rest) ++ post)) x := by
+    intro x hx0 hxhi
+    by_cases h1 : x < f.s
+    · refine ⟨⟨0, f.s, ""⟩, ?_, hx0, h1⟩
+      simp only [List.mem_append, pre]
+      rw [if_pos (by omega)]; simp
+    · by_cases h2 : g.e ≤ x
+      · refine ⟨⟨g.e, hi, ""⟩, ?_, h2, hxhi⟩
+        simp only [List.mem_append, post]
+        rw [if_pos (by omega)]; simp
+      · rcases g3 x ⟨f, hfm, by omega⟩ ⟨g, hgm, by omega⟩ with ⟨c, hc, h⟩ | ⟨c, hc, h⟩
+        · exact ⟨c, List.mem_append.2 (Or.inl hc), h⟩
+        · exact ⟨c, by simp only [List.mem_append]; exact Or.inr (Or.inl (Or.inr hc)), h⟩
+  have hposall : Pos ((f :: rest) ++ (pre ++ gapsOf (f :: rest) ++ post)) := by
+    intro iv hiv
+    rcases List.mem_append.1 hiv with h | h
+    · exact hp iv h
+    · exact (hns iv h).2.1
+  have hsd : SetDisj ((f :: rest) ++ (pre ++ gapsOf (f :: rest) ++ post)) := by
+    unfold SetDisj
+    rw [List.pairwise_append]
+    refine ⟨hd.setDisj, hdns.setDisj, ?_⟩
+    intro a ha b hb
+    have := hclear b hb a ha
+    omega
+  have huniq : ∀ x, ∀ a ∈ (f :: rest) ++ (pre ++ gapsOf (f :: rest) ++ post),
+      ∀ b ∈ (f :: rest) ++ (pre ++ gapsOf (f :: rest) ++ post),
+      (a.s ≤ x ∧ x < a.e) → (b.s ≤ x ∧ x < b.e) → a = b := by
+    intro x a ha b hb h1 h2
+    rcases pairwise_total hsd a ha b hb with h | h | h
+    · exact h
+    · omega
+    · omega
+  have hdsort := disj_sortIvs _ hposall hsd
+  have hpsort : Pos (sortIvs ((f :: rest) ++ (pre ++ gapsOf (f :: rest) ++ post))) :=
+    pos_perm hposall (sortIvs_perm _).symm
+  have hhi0 : 0 < hi := by have := hlo f hfm; have := hhi f hfm; omega
+  obtain ⟨t1, t2, t3⟩ := tiling_of_cover _ 0 hi hhi0 hpsort hdsort
+    (by
+      intro iv hiv
+      rw [mem_sortIvs] at hiv
+      rcases List.mem_append.1 hiv with h | h
+      · have := hlo iv h; have := hhi iv h; omega
+      · have := hns iv h; omega)
+    (by
+      intro x hx0 hxhi
+      obtain ⟨iv, hiv, h⟩ := hcov x hx0 hxhi
+      exact ⟨iv, mem_sortIvs.2 hiv, h⟩)
+  exact ⟨_, hcall, fun n hn => ⟨(hns n hn).1, (hns n hn).2.1, (hns n hn).2.2.1, (hns n hn).2.2.2.1⟩,
+    hclear, hdns, hcov, huniq, hdsort, t1, t2, t3⟩
+
+
+/-! ## 8. `invertIntervalList` -/
+
+/-- the differences between consecutive pairs (the comprehension at the end of `invertIntervalList`) -/
+def gaps2 (L : List (Int × Int)) : List (Int × Int) :=
+  (L.zip L.tail).filterMap fun (x, y) => if x.2 == y.1 then none else some (x.2, y.1)
+
+def Chain2 (L : List (Int × Int)) : Prop := L.Pairwise (fun x y => x.2 ≤ y.1)
+def covers2 (L : List (Int × Int)) (x : Int) : Prop := ∃ iv ∈ L, iv.1 ≤ x ∧ x < iv.2
+
+theorem gaps2_cons2 (x y : Int × Int) (rest : List (Int × Int)) :
+    gaps2 (x :: y :: rest) = (if x.2 = y.1 then [] else [(x.2, y.1)]) ++ gaps2 (y :: rest) := by
+  simp only [gaps2, List.tail_cons, List.zip_cons_cons, List.filterMap_cons]
+  by_cases h : x.2 = y.1 <;> simp [h]
+
+theorem pfirst {x : Int × Int} {xs : List (Int × Int)} (hp : ∀ a ∈ x :: xs, a.1 ≤ a.2)
+    (hd : Chain2 (x :: xs)) : ∀ a ∈ x :: xs, x.1 ≤ a.1 ∧ x.2 ≤ a.2 := by
+  intro a ha
+  rcases List.mem_cons.1 ha with rfl | ha
+  · omega
+  · have := (List.pairwise_cons.1 hd).1 a ha
+    have := hp a (by simp [ha])
+    have := hp x (by simp)
+    omega
+
+theorem plast (L : List (Int × Int)) (g : Int × Int) (hp : ∀ a ∈ L, a.1 ≤ a.2) (hd : Chain2 L)
+    (hg : L.getLast? = some g) : g ∈ L ∧ ∀ a ∈ L, a.1 ≤ g.1 ∧ a.2 ≤ g.2 := by
+  induction L with
+  | nil => simp at hg
+  | cons x xs ih =>
+    cases xs with
+    | nil => simp at hg; subst hg; simp
+    | cons y rest =>
+      rw [List.getLast?_cons_cons] at hg
+      obtain ⟨h1, h2⟩ := ih (fun a ha => hp a (List.mem_cons_of_mem _ ha)) (List.pairwise_cons.1 hd).2 hg
+      refine ⟨List.mem_cons_of_mem _ h1, ?_⟩
+      intro a ha
+      rcases List.mem_cons.1 ha with rfl | ha
+      · have := (List.pairwise_cons.1 hd).1 g h1
+        have := hp g (by simp [h1])
+        have := hp a (by simp)
+        omega
+      · exact h2 a ha
+
+theorem gaps2_spec (L : List (Int × Int)) (hp : ∀ a ∈ L, a.1 ≤ a.2) (hd : Chain2 L) :
+    (∀ n ∈ gaps2 L, n.1 < n.2 ∧ (∃ a ∈ L, a.2 = n.1) ∧ (∃ b ∈ L, b.1 = n.2) ∧
+        ∀ iv ∈ L, iv.2 ≤ n.1 ∨ n.2 ≤ iv.1) ∧
+    (∀ x0, (∃ a ∈ L, a.1 ≤ x0) → (∃ b ∈ L, x0 < b.2) → covers2 L x0 ∨ covers2 (gaps2 L) x0) := by
+  induction L with
+  | nil => simp [gaps2]
+  | cons x xs ih =>
+    cases xs with
+    | nil =>
+      refine ⟨by simp [gaps2], ?_⟩
+      rintro x0 ⟨a, ha, h1⟩ ⟨b, hb, h2⟩
+      simp only [List.mem_singleton] at ha hb
+      rw [ha] at h1; rw [hb] at h2
+      exact Or.inl ⟨x, by simp, h1, h2⟩
+    | cons y rest =>
+      obtain ⟨hdx, hdr⟩ := List.pairwise_cons.1 hd
+      have hp' : ∀ a ∈ y :: rest, a.1 ≤ a.2 := fun a ha => hp a (List.mem_cons_of_mem _ ha)
+      obtain ⟨ih1, ih3⟩ := ih hp' hdr
+      have hfy := pfirst hp' hdr
+      have hxy := hdx y (by simp)
+      have hpx := hp x (by simp)
+      have hpy := hp y (by simp)
+      rw [gaps2_cons2]
+      refine ⟨?_, ?_⟩
+      · intro n hn
+        rcases List.mem_append.1 hn with hn | hn
+        · split at hn
+          · cases hn
+          · rename_i hne
+            simp only [List.mem_singleton] at hn; subst hn
+            refine ⟨by simp only; omega, ⟨x, by simp, rfl⟩, ⟨y, by simp, rfl⟩, ?_⟩
+            intro iv hiv
+            rcases List.mem_cons.1 hiv with rfl | hiv
+            · left; exact Int.le_refl _
+            · right; exact (hfy iv hiv).1
+        · obtain ⟨h2, ⟨a, ha, hae⟩, ⟨b, hb, hbe⟩, h5⟩ := ih1 n hn
+          refine ⟨h2, ⟨a, by simp [ha], hae⟩, ⟨b, by simp [hb], hbe⟩, ?_⟩
+          intro iv hiv
+          rcases List.mem_cons.1 hiv with rfl | hiv
+          · left
+            have := hdx a ha
+            have := hp a (by simp [ha])
+            omega
+          · exact h5 iv hiv
+      · rintro x0 ⟨a, ha, h1⟩ ⟨b, hb, h2⟩
+        have hfa := (pfirst hp hd a ha).1
+        by_cases hx : x0 < x.2
+        · exact Or.inl ⟨x, by simp, by omega, hx⟩
+        · by_cases hy : x0 < y.1
+          · right
+            refine ⟨(x.2, y.1), ?_, by simp only; omega, hy⟩
+            rw [if_neg (by omega)]; simp
+          · have hb' : b ∈ y :: rest := by
+              rcases List.mem_cons.1 hb with rfl | hb
+              · omega
+              · exact hb
+            rcases ih3 x0 ⟨y, by simp, by omega⟩ ⟨b, hb', h2⟩ with ⟨c, hc, h⟩ | ⟨c, hc, h⟩
+            · exact Or.inl ⟨c, List.mem_cons_of_mem _ hc, h⟩
+            · exact Or.inr ⟨c, List.mem_append.2 (Or.inr hc), h⟩
+
+theorem pairLe_of_chain (l : List (Int × Int)) (hpos : ∀ a ∈ l, a.1 < a.2) (hd : Chain2 l) :
+    l.Pairwise (fun a b => pairLe a b = true) := by
+  refine List.Pairwise.imp_of_mem ?_ hd
+  intro a b ha hb h
+  have := hpos a ha
+  simp only [pairLe]
+  rw [if_pos (by omega)]
+
+theorem invert_empty (lo hi : Int) : invertIntervalList [] (some lo) (some hi) = .ok [(lo, hi)] := by
+  simp [invertIntervalList]
+
+theorem invert_rejects (l : List (Int × Int)) (lo hi : Option Int) (h : ∃ iv ∈ l, iv.2 ≤ iv.1) :
+    invertIntervalList l lo hi = .error .ArgumentError := by
+  obtain ⟨iv, hiv, h⟩ := h
+  unfold invertIntervalList
+  rw [if_pos]
+  simp only [List.any_eq_true, Bool.not_eq_true', decide_eq_false_iff_not]
+  exact ⟨iv, hiv, by omega⟩
+
+theorem invert_complement (l : List (Int × Int)) (lo hi : Int) (hne : l ≠ [])
+    (hpos : ∀ a ∈ l, a.1 < a.2) (hd : l.Pairwise (fun x y => x.2 ≤ y.1))
+    (hlo : ∀ f, l.head? = some f → lo ≤ f.1) (hhi : ∀ g, l.getLast? = some g → g.2 ≤ hi) :
+    ∃ inv, invertIntervalList l (some lo) (some hi) = .ok inv ∧
+      (∀ n ∈ inv, n.1 < n.2 ∧ lo ≤ n.1 ∧ n.2 ≤ hi) ∧
+      ∀ x, lo ≤ x → x < hi → (covers2 l x ∨ covers2 inv x) ∧ ¬ (covers2 l x ∧ covers2 inv x) := by
+  obtain ⟨f, rest, rfl⟩ : ∃ f rest, l = f :: rest := by
+    cases l with
+    | nil => exact absurd rfl hne
+    | cons f rest => exact ⟨f, rest, rfl⟩
+  obtain ⟨g, hg⟩ : ∃ g, (f :: rest).getLast? = some g := ⟨_, List.getLast?_eq_some_getLast (by simp)⟩
+  have hlo' := hlo f rfl
+  have hhi' := hhi g hg
+  have hpw : ∀ a ∈ f :: rest, a.1 ≤ a.2 := fun a ha => Int.le_of_lt (hpos a ha)
+  obtain ⟨hgm, hglast⟩ := plast _ g hpw hd hg
+  have hfirst := pfirst hpw hd
+  have hfm : f ∈ f :: rest := by simp
+  have hpf := hpos f hfm
+  have hpg := hpos g hgm
+  have hfg := (hglast f hfm).2
+  let pre : List (Int × Int) := if lo < f.1 then [(lo, lo)] else []
+  let post : List (Int × Int) := if g.2 < hi then [(hi, hi)] else []
+  have hsort : (f :: rest).mergeSort pairLe = f :: rest :=
+    List.mergeSort_of_pairwise (pairLe_of_chain _ hpos hd)
+  have hcall : invertIntervalList (f :: rest) (some lo) (some hi) = .ok (gaps2 (pre ++ (f :: rest) ++ post)) := by
+    unfold invertIntervalList
+    rw [if_neg]
+    · simp only [hsort, hg, List.head?_cons]
+      rfl
+    · simp only [List.any_eq_true, Bool.not_eq_true', decide_eq_false_iff_not, not_exists, not_and, Decidable.not_not]
+      exact hpos
+  have hpre : ∀ n ∈ pre, n = (lo, lo) ∧ lo < f.1 := by
+    intro n hn
+    simp only [pre] at hn
+    split at hn
+    · simp at hn; exact ⟨hn, by assumption⟩
+    · cases hn
+  have hpost : ∀ n ∈ post, n = (hi, hi) ∧ g.2 < hi := by
+    intro n hn
+    simp only [post] at hn
+    split at hn
+    · simp at hn; exact ⟨hn, by assumption⟩
+    · cases hn
+  have hLmem : ∀ a ∈ pre ++ (f :: rest) ++ post, a = (lo, lo) ∨ a ∈ f :: rest ∨ a = (hi, hi) := by
+    intro a ha
+    simp only [List.mem_append] at ha
+    rcases ha with (ha | ha) | ha
+    · exact Or.inl (hpre a ha).1
+    · exact Or.inr (Or.inl ha)
+    · exact Or.inr (Or.inr (hpost a ha).1)
+  have hLp : ∀ a ∈ pre ++ (f :: rest) ++ post, a.1 ≤ a.2 ∧ lo ≤ a.1 ∧ a.2 ≤ hi := by
+    intro a ha
+    rcases hLmem a ha with rfl | h | rfl
+    · simp only; omega
+    · have := hpos a h; have := (hfirst a h).1; have := (hglast a h).2; omega
+    · simp only; omega
+  have hLd : Chain2 (pre ++ (f :: rest) ++ post) := by
+    unfold Chain2
+    rw [List.pairwise_append, List.pairwise_append]
+    refine ⟨⟨?_, hd, ?_⟩, ?_, ?_⟩
+    · simp only [pre]; split <;> simp
+    · intro a ha b hb
+      obtain ⟨rfl, _⟩ := hpre a ha
+      have := (hfirst b hb).1
+      show lo ≤ b.1
+      omega
+    · simp only [post]; split <;> simp
+    · intro a ha b hb
+      obtain ⟨rfl, _⟩ := hpost b hb
+      show a.2 ≤ hi
+      rcases List.mem_append.1 ha with ha | ha
+      · obtain ⟨rfl, _⟩ := hpre a ha
+        show lo ≤ hi
+        omega
+      · have := (hglast a ha).2; omega
+  obtain ⟨g1, g3⟩ := gaps2_spec _ (fun a ha => (hLp a ha).1) hLd
+  refine ⟨_, hcall, ?_, ?_⟩
+  · intro n hn
+    obtain ⟨h1, ⟨a, ha, hae⟩, ⟨b, hb, hbe⟩, _⟩ := g1 n hn
+    have := hLp a ha; have := hLp b hb
+    exact ⟨h1, by omega, by omega⟩
+  · intro x hx0 hxhi
+    constructor
+    · have hA : ∃ a ∈ pre ++ (f :: rest) ++ post, a.1 ≤ x := by
+        by_cases h : lo < f.1
+        · refine ⟨(lo, lo), ?_, hx0⟩
+          simp only [List.mem_append, pre]; rw [if_pos h]; simp
+        · exact ⟨f, by simp, by omega⟩
+      have hB : ∃ b ∈ pre ++ (f :: rest) ++ post, x < b.2 := by
+        by_cases h : g.2 < hi
+        · refine ⟨(hi, hi), ?_, hxhi⟩
+          simp only [List.mem_append, post]; rw [if_pos h]; simp
+        · exact ⟨g, by simp only [List.mem_append]; exact Or.inl (Or.inr hgm), by omega⟩
+      rcases g3 x hA hB with ⟨c, hc, h⟩ | h
+      · left
+        rcases hLmem c hc with rfl | hc' | rfl
+        · simp only at h; omega
+        · exact ⟨c, hc', h⟩
+        · simp only at h; omega
+      · exact Or.inr h
+    · rintro ⟨⟨a, ha, ha1, ha2⟩, ⟨n, hn, hn1, hn2⟩⟩
+      have := (g1 n hn).2.2.2 a (by simp only [List.mem_append]; exact Or.inl (Or.inr ha))
+      omega
+
 
 end C15
